@@ -1,5 +1,5 @@
 (* RunC08.v -- runner for C08.  One case = the abstract view of a file (what every task reads) plus its bytes:
-     (case xFILE (meta xVER xMARK (d trailer...) MAXID ENC) (entries E ...) [(model pinned)])
+     (case xFILE (meta xVER xMARK (d trailer...) MAXID ENC [(xc (NUM CONTAINER) ...)]) (entries E ...) [(model pinned)])
      E ::= (KEY OFF fail) | (KEY OFF (obj (ID GEN) OBJ)) | (KEY OFF (stm (ID GEN) (d ...) xCONTENT START MEMBERS))
      START ::= none | N          MEMBERS ::= none | (m ((ID GEN) OBJ) ...)
    Result: (res (b I ...) (z I ...) (docs DOC ...)) : the document of the sequential load is docs[0]; [b] gives, for every
@@ -41,10 +41,19 @@ Definition entry_of_sx (x : sx) : option entry :=
 
 Definition file_of_sx (x : sx) : option (file * bool) :=
   match x with
-  | SL (_ :: fb :: SL [_; v; mk; tr; mx; enc] :: SL (_ :: es) :: rest) =>
+  | SL (_ :: fb :: SL (_ :: v :: mk :: tr :: mx :: enc :: xc) :: SL (_ :: es) :: rest) =>
     do fb <- as_bytes fb; do v <- as_bytes v; do mk <- as_bytes mk; do tr <- dict_of_sx tr;
     do mx <- as_N mx; do enc <- as_bool enc; do es <- omap entry_of_sx es;
-    Some (mkFile fb v mk tr mx enc es,
+    do xc <- (match xc with
+              | [] => Some []
+              | SL (_ :: l) :: _ =>
+                omap (fun e => match e with
+                               | SL [n; c] => do n <- as_N n; do c <- as_N c; Some (n, c)
+                               | _ => None
+                               end) l
+              | _ => None
+              end);
+    Some (mkFile fb v mk tr mx enc es xc,
           match rest with SL [_; m] :: _ => is_id m "pinned" | _ => false end)
   | _ => None
   end.
